@@ -250,7 +250,10 @@ class NIC(IPWiredNetworkInterface):
                 if frame.ip.dst_ip_address in {self.ip_address, self.ip_network.broadcast_address}:
                     accept_frame = True
             else:
-                if frame.ethernet.dst_mac_addr == self.mac_address:
+                # unicast: for this NIC's MAC address and for an IP address of this host
+                if frame.ethernet.dst_mac_addr == self.mac_address and self._connected_node.ip_is_network_interface(
+                    frame.ip.dst_ip_address
+                ):
                     accept_frame = True
 
             if accept_frame:
